@@ -27,9 +27,27 @@ from fractions import Fraction as Fr
 
 import scipp as sc
 
+import scippneutron.chopper.disk_chopper as _dc
 from ref.disk import Disk, arcs_overlap
 from scippneutron.chopper import DiskChopper
 from scippneutron.tof.chopper_cascade import Chopper
+
+# Nondeterminism owned by the harness (DESIGN 4): DiskChopper._apply_angle_repetitions names a
+# scratch dimension str(uuid4()) on *every* call.  scipp keeps every label ever used in a
+# process-wide table of ~64.5k entries, so a long-lived worker dies with "RuntimeError:
+# Exceeded maximum number of different dimension labels" after ~64k calls (reported as a side
+# finding; it is not part of the C10 statement).  The harness therefore pins the scratch label
+# from outside (module attribute, no repository change) and checks on the first configuration
+# of every case that the results are identical with the original uuid4.
+_ORIG_UUID4 = _dc.uuid4
+_FIXED_LABEL = 'c10-scratch-dim-0b0f6a62-6a3c-4f0e-9a51-2f6f3a1d7c10'
+
+
+def _fixed_uuid4():
+    return _FIXED_LABEL
+
+
+_dc.uuid4 = _fixed_uuid4
 
 ID = 'C10'
 LEVEL = 'model_checking'
@@ -48,6 +66,9 @@ ASSUMPTIONS = [
     'uses deg/360 turn (difference <= 1 ulp, tolerance is 1e-12 pulse periods)',
     'frequencies: the reference uses the exact rational value of the float passed',
     'slits that merely touch, zero-width slits and begin angles outside one common turn window are outside the alphabet',
+    'the per-call uuid4 scratch dimension label of DiskChopper._apply_angle_repetitions is pinned to a constant by the harness '
+    '(scipp\'s process-wide label table overflows after ~64.5k calls otherwise); results are checked to be identical with the original uuid4 '
+    'on the first configuration of every case',
 ]
 BOUND = {
     'quick': '7 ratios x 2 senses x 8 slit sets x {deg,rad} x 4 frequency-unit pairs at 14 Hz x 3 beam positions x 3 phases x '
@@ -62,7 +83,7 @@ REQUIRED_CLASSES = [
     'direct_ok', 'fdc_npulses_1_ok', 'fdc_npulses_ge2_run',
     'ratio_rejected_ValueError', 'ratio_near_integer_accepted',
     'overlap_plain_rejected', 'begin_gt_end_rejected', 'overlap_tdc_case_run',
-    'fdc_mixed_frequency_units_run',
+    'fdc_mixed_frequency_units_run', 'scratch_label_differential_identical',
 ]
 
 RATIOS = [(1, 1), (2, 1), (1, 2), (3, 1), (1, 3), (8, 1), (1, 4)]
@@ -311,7 +332,7 @@ def _disk(slits_deg, beam, phase, freq_value, funit):
     )
 
 
-def check_config(rec, case, slits_deg, *, beam, phase, amode, freq_value, funit, pulse_value, punit, dtype, n_rep, npulses_list):
+def check_config(rec, case, slits_deg, *, beam, phase, amode, freq_value, funit, pulse_value, punit, dtype, n_rep, npulses_list, first=False):
     """One real DiskChopper: the direct API and every expansion over pulses."""
     sub0 = {'beam_deg': beam, 'phase_deg': phase}
     try:
@@ -338,6 +359,15 @@ def check_config(rec, case, slits_deg, *, beam, phase, amode, freq_value, funit,
         return False
     if topen.unit != tclose.unit or topen.dims != tclose.dims:
         rec.viol(site, 'unit_or_dims', f'open {topen.dims} [{topen.unit}] vs close {tclose.dims} [{tclose.unit}]', **sub0)
+    if first:
+        _dc.uuid4 = _ORIG_UUID4
+        try:
+            same = sc.identical(topen, ch.time_offset_open(pulse_frequency=pf)) and sc.identical(tclose, ch.time_offset_close(pulse_frequency=pf))
+        finally:
+            _dc.uuid4 = _fixed_uuid4
+        if not same:
+            raise AssertionError('broken harness: pinning the scratch dimension label changes the result')
+        rec.cls('scratch_label_differential_identical')
     opens, closes, durs = _seconds(topen), _seconds(tclose), _seconds(tdur)
     ok = judge(rec, site, disk, opens, closes, t_pulse, sub0, cover=(Fr(0), max(t_pulse, disk.period)) if zero else None)
     want = len(slits_deg) * (n_rep + 1)
@@ -411,7 +441,8 @@ def run_open(case, rec):
             if abs(phase) >= 360:
                 rec.cls('phase_multi_turn')
             check_config(rec, case, slits, beam=beam, phase=phase, amode=case['amode'], freq_value=fv, funit=case['funit'],
-                         pulse_value=pv, punit=case['punit'], dtype=case['dtype'], n_rep=n_rep, npulses_list=case['npulses'])
+                         pulse_value=pv, punit=case['punit'], dtype=case['dtype'], n_rep=n_rep, npulses_list=case['npulses'],
+                         first=(beam == case['beams'][0] and phase == case['phases'][0]))
 
 
 def run_ratio(case, rec):
